@@ -600,7 +600,7 @@ def feature_mechanism(label, f, in_kind, pb_in):
     several (compiler, feature) pairs share a cause, which is recognised from the *input* (names only; the verdict itself
     never depends on this classification)."""
     feats = set(in_kind.features)
-    if f in SHIFT_FEATURES:
+    if f in SHIFT_FEATURES or f.startswith("STATIC_FLUENTS_IN_") or f.startswith("FLUENTS_IN_"):
         return f"simplification-feature-shift:{f}"
     if label == "utfr" and f in UTFR_BOOL_ASSIGN_FEATURES:
         # UsertypeFluentsRemover turns every Boolean assignment with a non-constant value into two conditional effects.
